@@ -90,6 +90,66 @@ def r_leaf_creation(ctx):
     return n
 
 
+def r_function_creation(ctx):
+    """Function.__init__ unrolled for a leaf and for a combination: both are registered exactly once in the class registry the solve root iterates;
+    a leaf decomposes as {itself: 1} and takes the class counter (which moves by one); a combination keeps the decomposition it is given, takes no
+    index and leaves the counter alone; the differentiability flag is stored as given; every sample / constraint container starts empty and is the
+    object's own (no container is shared with the registry, with another attribute or with an argument)."""
+    repo = ctx.repo
+    init = repo.method("Function", "__init__")
+    ctx.unit("Function.__init__")
+    ps = params_of(init)
+    n = 0
+    for leaf in (True, False):
+        for flag in (True, False):
+            old = [SymObj("Function", label="old%d" % k, counter=k, _is_leaf=True) for k in range(2)]
+            me = SymObj("Function", label="new")
+            given = {old[0]: 2, old[1]: -1}
+            env = {p: None for p in ps}
+            env.update({ps[0]: me, "is_leaf": leaf, "decomposition_dict": None if leaf else given, "reuse_gradient": flag,
+                        "Function.counter": 2, "Function.list_of_functions": list(old), "Function": ("type", "Function"), "dict": ("type", "dict")})
+            it = IndexInterp(env, check_asserts=True)
+            it.symbolic_truth = True
+            msg = None
+            try:
+                it.run(init.body)
+            except AnalysisError as ex:
+                if "raises" in str(ex):
+                    msg = "the constructor raises for %s: %s" % ("a leaf" if leaf else "a combination with a decomposition", ex)
+                else:
+                    raise AnalysisError("Function.__init__ not interpretable: %s" % ex)
+            if msg is None:
+                a = me.attrs
+                cnt = it.env.get("Function.counter")
+                regv = it.env.get("Function.list_of_functions")
+                lists = {k: v for k, v in a.items() if isinstance(v, (list, dict)) and k != "decomposition_dict"}
+                shared = [(k1, k2) for k1 in lists for k2 in lists if k1 < k2 and lists[k1] is lists[k2]]
+                if not isinstance(regv, list) or [x for x in regv if x is me] != [me] or regv[:2] != old:
+                    msg = "the function is not registered exactly once in Function.list_of_functions (the solve root would %s its constraints)" % (
+                        "never send" if not isinstance(regv, list) or me not in regv else "send twice")
+                elif a.get("_is_leaf") is not leaf:
+                    msg = "the leaf flag is `%r` for is_leaf=%r" % (a.get("_is_leaf"), leaf)
+                elif a.get("reuse_gradient") is not flag:
+                    msg = "the differentiability flag stored is `%r` for reuse_gradient=%r" % (a.get("reuse_gradient"), flag)
+                elif leaf and not (isinstance(a.get("decomposition_dict"), dict) and list(a["decomposition_dict"].keys()) == [me] and a["decomposition_dict"][me] == 1):
+                    msg = "a leaf function does not decompose as {itself: 1}"
+                elif leaf and (a.get("counter") != 2 or cnt != 3):
+                    msg = "a leaf function gets index `%r` and leaves the class counter at %r (it was 2)" % (a.get("counter"), cnt)
+                elif not leaf and a.get("decomposition_dict") is not given and a.get("decomposition_dict") != given:
+                    msg = "a combination does not keep the decomposition it was given"
+                elif not leaf and (a.get("counter", "missing") is not None or cnt != 2):
+                    msg = "a combination gets index `%r` / moves the class counter to %r" % (a.get("counter", "missing"), cnt)
+                elif any(v for v in lists.values()):
+                    msg = "a new function starts with a non-empty `%s`" % [k for k, v in lists.items() if v][0]
+                elif shared or any(v is regv or v is given for v in lists.values()):
+                    msg = "two containers of a new function are one object (%s): what is appended to one appears in the other" % (shared[0] if shared else "registry / argument",)
+            n += 1
+            ctx.ob("R-LEAFREG", "Function.__init__::%s, reuse_gradient=%s (unrolled)" % ("leaf" if leaf else "combination", flag), msg is None,
+                   "registered once, own empty containers, flag stored, %s" % ("index = counter, {self: 1}" if leaf else "decomposition kept, no index")
+                   if msg is None else msg, loc(init, init))
+    return n
+
+
 # ---------------------------------------------------------------------------------------------------
 # (2) post-solve assignment
 # ---------------------------------------------------------------------------------------------------
@@ -114,6 +174,8 @@ class _Interp(IndexInterp):
     def __init__(self, env, negative):
         super().__init__(env, symbolic=(), on_call=self._np)
         self.negative = negative
+        self.choices = []        # decisions taken for the symbolic tests that are not sign tests, in order of evaluation
+        self.taken = []          # (test, decision) as evaluated
 
     def ev(self, e):
         if isinstance(e, ast.Attribute) and e.attr == "T":
@@ -160,6 +222,12 @@ class _Interp(IndexInterp):
             return _tok("eigvals") if a == ("array", "G") else _tok("eigvals-of", a)
         if nm in ("min", "amin") and (is_np and len(node.args) == 1 or (recv is not None and is_token(recv) and not node.args)):
             return _tok("min", args()[0] if is_np else recv)
+        if nm in ("max", "amax") and (is_np and len(node.args) == 1 or (recv is not None and is_token(recv) and not node.args)):
+            return _tok("max", args()[0] if is_np else recv)
+        if is_np and nm in ("abs", "absolute") and len(node.args) == 1:
+            return _tok("abs", args()[0])
+        if is_np and nm == "cholesky" and len(node.args) == 1:
+            return _tok("chol", args()[0])
         if is_np and nm == "maximum" and len(node.args) == 2:
             a, b = args()
             if b == 0 or a == 0:
@@ -200,10 +268,62 @@ class _Interp(IndexInterp):
     def truth(self, v):
         if is_token(v):
             s = _sign_test(v)
-            if s is None:
-                raise AnalysisError("symbolic test `%r` is not a sign test on the eigenvalues" % (v,))
-            return self.negative if s else not self.negative
+            if s is not None:
+                return self.negative if s else not self.negative
+            if self.negative:
+                d = _implied_when_negative(v)
+                if d is not None:
+                    return d
+            # any other numeric test (conditioning, rank, ...): both outcomes are explored, one run each
+            k = len(self.taken)
+            if k >= len(self.choices):
+                raise _NeedChoice(k)
+            self.taken.append((v, self.choices[k]))
+            return self.choices[k]
         return super().truth(v)
+
+
+class _NeedChoice(Exception):
+    pass
+
+
+def _nonneg(t):
+    """a quantity that cannot be negative: a non-negative constant, the largest eigenvalue of a Gram matrix, products / quotients / maxima of such"""
+    if isinstance(t, (int, float)) and not isinstance(t, bool):
+        return t >= 0
+    if _is(t, "max") and t[2] and (_is(t[2][0], "eigvals") or _is(t[2][0], "clip")):
+        return True
+    if _is(t, "clip") or _is(t, "sqrt") or _is(t, "abs"):
+        return True
+    if is_token(t) and t[0] == "op" and t[1] in ("Mult", "Div", "Add"):
+        return _nonneg(t[2]) and _nonneg(t[3])
+    return False
+
+
+def _implied_when_negative(v):
+    """On the path where the smallest eigenvalue is negative: `min(E) > y` / `>= y` is false and `min(E) < y` / `<= y` is true for every y >= 0."""
+    if not (is_token(v) and v[0] == "cmp"):
+        return None
+    op, l, r = v[1], v[2], v[3]
+    m = _tok("min", _tok("eigvals"))
+    if r == m:
+        l, r = r, l
+        op = {"Lt": "Gt", "Gt": "Lt", "LtE": "GtE", "GtE": "LtE"}.get(op, op)
+    if l == m and _nonneg(r):
+        if op in ("Gt", "GtE"):
+            return False
+        if op in ("Lt", "LtE"):
+            return True
+    m0 = _tok("min", _tok("clip", _tok("eigvals")))          # 0 on this path
+    if r == m0:
+        l, r = r, l
+        op = {"Lt": "Gt", "Gt": "Lt", "LtE": "GtE", "GtE": "LtE"}.get(op, op)
+    if l == m0 and _nonneg(r):
+        if op == "Gt":
+            return False
+        if op == "LtE":
+            return True
+    return None
 
 
 def _sign_test(v):
@@ -264,8 +384,8 @@ def _column(v):
         base, idx = v[1], v[2]
         if isinstance(idx, tuple) and len(idx) == 2 and is_token(idx[0]) and idx[0] == ("slice", None, None, None) and isinstance(idx[1], int):
             return base, idx[1]
-        if isinstance(idx, int) and _is(base, "T"):
-            return base[2][0], idx
+        if isinstance(idx, int):
+            return (base[2][0] if _is(base, "T") else _tok("T", base)), idx        # row k of X is column k of X^T
     return None
 
 
@@ -280,10 +400,12 @@ def r_assignment_program(ctx):
     ctx.unit(qualname(fn))
     ps = params_of(fn)
     results = []
-    for negative in (True, False):
-        for verbose in (0, 1):
+    for negative, verbose in ((True, 0), (True, 1), (False, 0), (False, 1)):
+        def model():
             pts = [SymObj("Point", label="p%d" % k, counter=k, _is_leaf=True, _value=None) for k in range(3)]
             exs = [SymObj("Expression", label="e%d" % k, counter=k, _is_leaf=True, _value=None, decomposition_dict=None) for k in range(4)]
+            for o in pts + exs:
+                o.attrs["decomposition_dict"] = {o: 1}
             comp = SymObj("Expression", label="composite", counter=None, _is_leaf=False, _value=None,
                           decomposition_dict={exs[2]: 2, (pts[0], pts[2]): 3, 1: 5})
             psd = SymObj("PSDMatrix", label="lmi", shape=(2, 2), matrix_of_expressions={(0, 0): exs[1], (0, 1): comp, (1, 0): comp, (1, 1): exs[3]})
@@ -297,15 +419,29 @@ def r_assignment_program(ctx):
                 env[p] = verbose if p == "verbose" else None
             env[fpar] = ("array", "F")
             env[gpar] = ("array", "G")
+            return env, pts, exs, comp
+
+        pending = [[]]
+        while pending:
+            choices = pending.pop(0)
+            if len(results) > 64:
+                raise AnalysisError("post-solve assignment: more than 64 paths through numeric tests")
+            env, pts, exs, comp = model()
             it = _Interp(env, negative)
+            it.choices = choices
             try:
                 it.run(fn.body)
+            except _NeedChoice:
+                pending.append(choices + [True])
+                pending.append(choices + [False])
+                continue
             except AnalysisError as ex:
                 if "raises" in str(ex):
-                    results.append((negative, verbose, "the routine raises on a well-formed model: %s" % ex))
+                    results.append((negative, verbose, "", "the routine raises on a well-formed model: %s" % ex))
                     continue
                 raise AnalysisError("post-solve assignment not interpretable: %s" % ex)
             msg = None
+            path = "; ".join("%s is %s" % (_show(t)[:70], d) for t, d in it.taken)
             for k, p in enumerate(pts):
                 col = _column(p.attrs.get("_value"))
                 if col is None:
@@ -315,6 +451,8 @@ def r_assignment_program(ctx):
                 if j != k:
                     msg = "leaf point %d receives column %d of the factor" % (k, j)
                     break
+                if base == _tok("T", _tok("chol", ("array", "G"))) and not negative:
+                    continue          # G = L L^T: the columns of L^T reproduce G (on a path where G is positive definite)
                 if not _is(base, "R"):
                     msg = "the point coordinates are read from `%s`, not from the triangular factor of a square root of the Gram matrix" % _show(base)
                     break
@@ -334,11 +472,83 @@ def r_assignment_program(ctx):
                         break
             if msg is None and comp.attrs.get("_value") is not None:
                 msg = "a derived expression is given a value by the post-solve assignment (derived values are computed on demand from the leaves)"
-            results.append((negative, verbose, msg))
-    for negative, verbose, msg in results:
-        ctx.ob("R-LEAFREG", "PEP.%s::%s eigenvalue, verbose=%d (unrolled)" % (fn.name, "a negative" if negative else "no negative", verbose), msg is None,
+            results.append((negative, verbose, path, msg))
+    for negative, verbose, path, msg in results:
+        ctx.ob("R-LEAFREG", "PEP.%s::%s eigenvalue, verbose=%d%s (unrolled)" % (fn.name, "a negative" if negative else "no negative", verbose,
+                                                                               ", " + path if path else ""), msg is None,
                "leaf point k <- column k of R with R^T R = V max(E, 0) V^T, leaf expression k <- F[k]" if msg is None else msg, loc(fn, fn))
     ctx.count("post-solve assignment runs", len(results))
+    return len(results)
+
+
+# ---------------------------------------------------------------------------------------------------
+# (3) evaluation of a combination
+# ---------------------------------------------------------------------------------------------------
+def r_expression_eval_program(ctx):
+    """Expression.eval unrolled on a solved model: the value of `w1 * e1 + w2 * <p0, p1> + w3` must be w1 * value(e1) + w2 * <value(p0), value(p1)>
+    + w3, with every operand read through its accessor.  Comparisons that involve an Expression go through Expression.__eq__, which builds a
+    (truthy) Constraint -- the interpreter follows that, so a test like `key == 1` placed before the type tests takes the branch it takes at run
+    time."""
+    from ..nf import Rat
+    repo = ctx.repo
+    fn = repo.method("Expression", "eval")
+    ctx.unit("Expression.eval")
+    has_eq = repo.cls("Expression").find_method("__eq__") is not None
+    pts = [SymObj("Point", label="p%d" % k, counter=k, _is_leaf=True, _value=("vec", "p%d" % k)) for k in range(2)]
+    exs = [SymObj("Expression", label="e%d" % k, counter=k, _is_leaf=True, _value=Rat.sym("val_e%d" % k)) for k in range(2)]
+    for o in pts + exs:
+        o.attrs["decomposition_dict"] = {o: 1}
+    results = []
+    for order in (0, 1, 2):
+        items = [(exs[1], Rat.sym("w1")), ((pts[0], pts[1]), Rat.sym("w2")), (1, Rat.sym("w3"))]
+        items = items[order:] + items[:order]
+        me = SymObj("Expression", label="combination", counter=None, _is_leaf=False, _value=None, decomposition_dict=dict(items))
+        asked = []
+
+        def on_call(node, it):
+            nm = call_name(node)
+            f = node.func
+            if isinstance(f, ast.Attribute) and nm in ("eval", "get_is_leaf") and not node.args:
+                try:
+                    o = it.ev(f.value)
+                except AnalysisError:
+                    return NotImplemented
+                if isinstance(o, SymObj) and nm == "get_is_leaf":
+                    return o.attrs["_is_leaf"]
+                if isinstance(o, SymObj) and o.attrs.get("_is_leaf"):
+                    asked.append(o)
+                    return o.attrs["_value"]
+            if nm in ("dot", "inner", "vdot") and len(node.args) == 2:
+                a, b = it.ev(node.args[0]), it.ev(node.args[1])
+                if isinstance(a, tuple) and isinstance(b, tuple) and a[:1] == ("vec",) and b[:1] == ("vec",):
+                    return Rat.sym("<%s,%s>" % tuple(sorted((a[1], b[1]))))
+            return NotImplemented
+
+        def on_compare(left, op, right, node):
+            if has_eq and op == "Eq" and any(isinstance(x, SymObj) and x.kind == "Expression" for x in (left, right)):
+                return SymObj("Constraint", label="built by Expression.__eq__")        # truthy, like every object
+            return NotImplemented
+        env = {params_of(fn)[0]: me, "Expression": ("type", "Expression"), "Point": ("type", "Point"), "tuple": ("type", "tuple"),
+               "int": ("type", "int"), "float": ("type", "float"), "Point.counter": 2, "Expression.counter": 2}
+        it = IndexInterp(env, on_call=on_call, check_asserts=True)
+        it.on_compare = on_compare
+        msg = None
+        try:
+            ret = it.run(fn.body)
+            want = Rat.sym("w1") * Rat.sym("val_e1") + Rat.sym("w2") * Rat.sym("<p0,p1>") + Rat.sym("w3")
+            if not (type(ret).__name__ == "Rat" and (ret - want).is_zero()):
+                msg = "the value of w1 * e1 + w2 * <p0, p1> + w3 is computed as `%s`, expected `%s`" % (ret, want)
+            elif me.attrs.get("_value") is not None and not (type(me.attrs["_value"]).__name__ == "Rat" and (me.attrs["_value"] - want).is_zero()):
+                msg = "the value stored on the combination is `%s`, the value returned `%s`" % (me.attrs["_value"], ret)
+        except AnalysisError as ex:
+            if "the index program raises" in str(ex):
+                msg = "evaluating a well-formed combination on a solved model raises: %s" % ex
+            else:
+                raise AnalysisError("Expression.eval not interpretable: %s" % ex)
+        results.append((order, msg))
+    for order, msg in results:
+        ctx.ob("R-EVALSHAPE", "Expression.eval::combination, key order %d (unrolled)" % order, msg is None,
+               "value = sum of weight * value of the term, terms read through their accessors" if msg is None else msg, loc(fn, fn))
     return len(results)
 
 
